@@ -1,0 +1,16 @@
+//go:build verif
+
+package analysis
+
+import (
+	"github.com/awslabs/ar-go-tools/internal/funcutil"
+	"github.com/awslabs/ar-go-tools/internal/verifhook"
+)
+
+// VerifMapParallel re-exports internal/funcutil.MapParallel for the verification harness.
+func VerifMapParallel[T any, S any](a []T, f func(T) S, numRoutines int) []S {
+	return funcutil.MapParallel(a, f, numRoutines)
+}
+
+// VerifSetHook installs the function called at every verification hook site.
+func VerifSetHook(f func(site string)) { verifhook.Set(f) }
